@@ -31,6 +31,8 @@ def skeletons(tier, seed):
     rnd = random.Random(seed)
     d2 = [(p, [a, b], body, bc, pay) for p in PREFIX for a in OPENERS for b in OPENERS for (body, bc, pay) in INNER]
     d3 = [(p, [a, b, c], body, bc, pay) for p in PREFIX[:2] for a in OPENERS for b in OPENERS for c in OPENERS for (body, bc, pay) in INNER]
+    # every depth-2 chain whose innermost body is empty or a single filler (a lone opener / element as the last item)
+    out += [("", [a, b], body, bc, pay) for a in OPENERS for b in OPENERS for (body, bc, pay) in INNER[:2]]
     if tier == "quick":
         out += rnd.sample(d2, 120) + rnd.sample(d3, 40)
     else:
@@ -77,7 +79,7 @@ def build(tier, seed, known):
     plan.modules["m"] = src
     plan.batch = 8
     plan.functions_encoded = ["vyxal/lexer.py: tokenise", "vyxal/parse.py: parse _get_branches process_parameters variable_name", "vyxal/structure.py"]
-    plan.rule = ("skeleton = closed program from the structure grammar (16 opener forms incl. branch prefixes x 10 innermost bodies; all of depth 1, seeded samples of depth 2, 3%s) — %d skeletons; every truncation point of the trailing closers (closing back-quote included) is walked; "
+    plan.rule = ("skeleton = closed program from the structure grammar (16 opener forms incl. branch prefixes x 10 innermost bodies; all of depth 1, all of depth 2 with an empty or single-element innermost body, seeded samples of depth 2, 3%s) — %d skeletons; every truncation point of the trailing closers (closing back-quote included) is walked; "
                  "the solver quantifies over the filler element character (any non-structural character) and the literal payload" % (" and 4" if tier == "thorough" else "", len(sk)))
     plan.assumptions = ["filler characters exclude openers, closers, |, space, modifiers, X, x, digits and literal introducers", "VERIF_SEED only selects which deeper skeletons are added"]
     plan.outside = ["nesting deeper than %d" % (3 if tier == "quick" else 4), "skeletons the generator does not produce", "an induction over nesting depth is not claimed"]
